@@ -299,7 +299,12 @@ Proof.
   assert (A: Inv (put_continue s (puts s) t c m cached)).
   { apply inv_put_continue; auto. apply (i_np s I). }
   destruct m as [req|]; [|exact A].
-  destruct (check_concurrency _ req); cbn [fst]; [exact A| |exact I].
+  destruct (check_concurrency _ req); cbn [fst]; [| |exact I].
+  { destruct (find_put t (puts s)) as [p|] eqn:F; [|exact A].
+    destruct (pe_mut p) as [inf|]; [|exact A].
+    destruct (bytes_eqb (mp_sig req) (mp_sig inf)); cbn [fst]; [|exact A].
+    destruct I as [H1 H2 H3 H4 H5]. constructor; cbn [park_put lookups puts gsend psend]; try assumption.
+    intros t' c' [E|Hin]; [|eauto]. injection E as <- _. exists p. now apply find_put_some. }
   apply inv_put_continue; [exact I| | |].
   - unfold remove_put. apply NoDup_map_filter. apply (i_np s I).
   - intros p Hp. now apply remove_put_in in Hp.
@@ -361,8 +366,10 @@ Proof.
   - assert (A: forall ps, Permutation (c :: parked s) (parked (put_continue s ps t c m cached) ++ [])).
     { intros ps. rewrite app_nil_r. unfold put_continue, parked. destruct cached; cbn [gsend psend map snd]; apply Permutation_middle. }
     unfold step_put. destruct m as [req|]; [|apply A].
-    destruct (check_concurrency _ req); cbn [fst snd map oc_caller]; [apply A|apply A|].
-    apply Permutation_cons_append.
+    destruct (check_concurrency _ req); cbn [fst snd map oc_caller]; [|apply A|apply Permutation_cons_append].
+    destruct (match find_put t (puts s) with Some p => pe_mut p | None => None end) as [inf|]; [|apply A].
+    destruct (bytes_eqb (mp_sig req) (mp_sig inf)); cbn [fst snd map]; [|apply A].
+    rewrite app_nil_r. unfold park_put, parked. cbn [gsend psend map snd]. apply Permutation_middle.
   - unfold step_tick. destruct (start_puts dget (puts s)) as [ps1 extra]. unfold release_gets.
     pose proof (release_puts_perm (dput ++ extra) (psend s)) as PP.
     destruct (release_puts (dput ++ extra) (psend s)) as [pss' pout]. cbn [fst snd] in *.
@@ -472,15 +479,18 @@ Proof. split; cbn; [now left|apply add_lookup_in; now left]. Qed.
 Theorem put_told_or_parked s t c m cached :
   (exists e, snd (step_put s t c m cached) = [OPut c (OutErr (EConcurrency e))] /\ fst (step_put s t c m cached) = s)
   \/ (snd (step_put s t c m cached) = [] /\ In (t, c) (psend (fst (step_put s t c m cached)))
-      /\ exists p, In p (puts (fst (step_put s t c m cached))) /\ pe_target p = t /\ pe_started p = cached).
+      /\ exists p, In p (puts (fst (step_put s t c m cached))) /\ pe_target p = t).
 Proof.
   assert (A: forall ps, In (t, c) (psend (put_continue s ps t c m cached))
-             /\ exists p, In p (puts (put_continue s ps t c m cached)) /\ pe_target p = t /\ pe_started p = cached).
+             /\ exists p, In p (puts (put_continue s ps t c m cached)) /\ pe_target p = t).
   { intros ps. unfold put_continue. destruct cached; cbn [psend puts]; (split; [now left|]);
-      eexists; (split; [apply insert_put_in; left; reflexivity|split; reflexivity]). }
+      eexists; (split; [apply insert_put_in; left; reflexivity|reflexivity]). }
   unfold step_put. destruct m as [req|]; [|right; split; [reflexivity|apply A]].
   destruct (check_concurrency _ req) as [| |e]; cbn [fst snd].
-  - right. split; [reflexivity|apply A].
+  - destruct (find_put t (puts s)) as [p|] eqn:F; [|right; split; [reflexivity|apply A]].
+    destruct (pe_mut p) as [inf|]; [|right; split; [reflexivity|apply A]].
+    destruct (bytes_eqb (mp_sig req) (mp_sig inf)); cbn [fst snd]; [|right; split; [reflexivity|apply A]].
+    right. split; [reflexivity|]. split; [cbn; now left|]. exists p. cbn [park_put puts]. now apply find_put_some.
   - right. split; [reflexivity|apply A].
   - left. exists e. now split.
 Qed.
